@@ -103,7 +103,8 @@ var keyCmds = []cmdShape{
 	{"lmove", "12", 2, 2}, {"pfadd", "1", 1, 3}, {"xadd", "1", 3, 5}, {"xdel", "1", 1, 2}, {"restore", "1", 2, 3},
 }
 
-var unknownCmds = []string{"foo.bar", "my.custom", "bf.add", "zz9", "cl.throttle", "json.set", "x"}
+// names no Redis version or module defines (unknown to every key table)
+var unknownCmds = []string{"foo.bar", "my.custom", "qq.fetch", "zz9", "cl.throttle", "vv.store", "x"}
 
 type gen struct {
 	c    *simrt.Chooser
@@ -141,7 +142,55 @@ func (g *gen) arg(maxLen int) []byte {
 	}
 }
 
+var braceShapes = []string{"{%s}x", "{%s}{b}", "{}{%s}", "a{%s", "}{%s", "{{%s}}", "x{%s}z{w}", "%s{}", "{%s}", "p:{%s}:q{r}s"}
+
+func (g *gen) filterKey() []byte {
+	c := g.c
+	var k []byte
+	switch c.Choose("fkeykind", 4) {
+	case 0: // prefix from the configured lists + suffix
+		f := g.opts.Filters
+		var pool []string
+		if f != nil {
+			pool = append(pool, f.PrefixBlack...)
+			pool = append(pool, f.PrefixWhite...)
+		}
+		if len(pool) > 0 {
+			k = append(k, pool[c.Choose("fkeypfx", len(pool))]...)
+			switch c.Choose("fkeycut", 6) {
+			case 0:
+				if len(k) > 1 {
+					k = k[:len(k)-1] // just short of the prefix
+				}
+			case 1: // same length, one non-ASCII byte differs: must NOT match the prefix
+				k = append([]byte(nil), k...)
+				for i := range k {
+					if k[i] >= 0x80 {
+						k[i] ^= 0x01
+						break
+					}
+				}
+			}
+		}
+		k = append(k, g.arg(16)...)
+	case 1: // brace arrangements
+		tag := string(g.arg(8))
+		k = []byte(fmt.Sprintf(braceShapes[c.Choose("brace", len(braceShapes))], tag))
+	case 2: // reserved bookkeeping keys found in a source
+		k = []byte([]string{"redis-gunyu-checkpoint", "redis-gunyu-checkpoint-hash", "redis-gunyu-checkpoint-x1", "/redis-gunyu/ns/a"}[c.Choose("resv", 4)])
+	default:
+		k = g.arg(24)
+	}
+	if len(k) == 0 {
+		k = []byte("k")
+	}
+	return k
+}
+
 func (g *gen) key() []byte {
+	if g.opts.Filters != nil && g.c.Choose("fkey", 4) > 0 {
+		return g.filterKey()
+	}
 	if len(g.keys) > 0 && g.c.Choose("keyreuse", 3) > 0 {
 		return g.keys[g.c.Choose("keyidx", len(g.keys))]
 	}
@@ -232,6 +281,85 @@ func (g *gen) businessCmd() (string, [][]byte) {
 		args = append(args, g.arg(1<<20))
 	}
 	return randCase(g.c, sh.name), args
+}
+
+// GenFilterSpec draws a filter configuration: any number of slot ranges in any order (overlapping, nested,
+// adjacent, single-slot), prefix white/black lists (incl. prefixes of each other, binary), DB and command lists.
+func GenFilterSpec(c *simrt.Chooser) *FilterSpec {
+	f := &FilterSpec{}
+	for i := c.Choose("ncmdblack", 3); i > 0; i-- {
+		var nm string
+		if c.Choose("cmdblackkind", 3) == 0 {
+			nm = unknownCmds[c.Choose("cmdblacku", len(unknownCmds))]
+		} else {
+			nm = keyCmds[c.Choose("cmdblackk", len(keyCmds))].name
+		}
+		f.CmdBlacklist = append(f.CmdBlacklist, randCase(c, nm))
+	}
+	for i := c.Choose("ndbblack", 3); i > 0; i-- {
+		f.DbBlacklist = append(f.DbBlacklist, c.Choose("dbblack", 4))
+	}
+	pfx := []string{"a", "ab", "abc", "user:", "k", "{t}", "\xff\x00", "9", "x{", "p:"}
+	for i := c.Choose("npfxblack", 4); i > 0; i-- {
+		f.PrefixBlack = append(f.PrefixBlack, pfx[c.Choose("pfxb", len(pfx))])
+	}
+	if c.Choose("usewhite", 3) == 0 {
+		for i := 1 + c.Choose("npfxwhite", 3); i > 0; i-- {
+			f.PrefixWhite = append(f.PrefixWhite, pfx[c.Choose("pfxw", len(pfx))])
+		}
+	}
+	ranges := func(label string) [][2]int {
+		var out [][2]int
+		n := c.Choose(label+"_n", 6)
+		for i := 0; i < n; i++ {
+			var lo, hi int
+			switch c.Choose(label+"_kind", 5) {
+			case 0: // wide
+				lo = c.Choose(label+"_lo", 16384)
+				hi = lo + c.Choose(label+"_w", 16384-lo)
+			case 1: // single slot
+				lo = c.Choose(label+"_lo", 16384)
+				hi = lo
+			case 2: // nested in / overlapping with a previous one
+				if len(out) > 0 {
+					p := out[c.Choose(label+"_prev", len(out))]
+					lo = p[0] + c.Choose(label+"_in", p[1]-p[0]+1)
+					hi = lo + c.Choose(label+"_w2", 4000)
+				} else {
+					lo, hi = 0, 16383
+				}
+			case 3: // adjacent to a previous one
+				if len(out) > 0 {
+					p := out[c.Choose(label+"_prev", len(out))]
+					lo = p[1] + 1
+					hi = lo + c.Choose(label+"_w3", 3000)
+				} else {
+					lo, hi = 100, 200
+				}
+			default:
+				lo = c.Choose(label+"_lo", 16384)
+				hi = lo + c.Choose(label+"_w4", 2000)
+			}
+			if hi > 16383 {
+				hi = 16383
+			}
+			if lo > 16383 {
+				lo = 16383
+			}
+			out = append(out, [2]int{lo, hi})
+		}
+		return out
+	}
+	switch c.Choose("slotmode", 4) {
+	case 1:
+		f.SlotWhite = ranges("sw")
+	case 2:
+		f.SlotBlack = ranges("sb")
+	case 3:
+		f.SlotWhite = ranges("sw")
+		f.SlotBlack = ranges("sb")
+	}
+	return f
 }
 
 // GenStream draws a well-formed replication stream.
